@@ -387,10 +387,16 @@ func (d *BFD) DecodeFromBytes(data []byte, df gopacket.DecodeFeedback) error {
 		case BFDAuthTypePassword:
 			d.AuthHeader.Data = BFDAuthData(data)
 		case BFDAuthTypeKeyedMD5, BFDAuthTypeMeticulousKeyedMD5:
+			if len(data) < 5 {
+				return errors.New("BFD authentication section too short for a sequence number")
+			}
 			// Skipped reserved byte
 			data, d.AuthHeader.SequenceNumber = data[5:], BFDAuthSequenceNumber(binary.BigEndian.Uint32(data[1:5]))
 			d.AuthHeader.Data = BFDAuthData(data)
 		case BFDAuthTypeKeyedSHA1, BFDAuthTypeMeticulousKeyedSHA1:
+			if len(data) < 5 {
+				return errors.New("BFD authentication section too short for a sequence number")
+			}
 			// Skipped reserved byte
 			data, d.AuthHeader.SequenceNumber = data[5:], BFDAuthSequenceNumber(binary.BigEndian.Uint32(data[1:5]))
 			d.AuthHeader.Data = BFDAuthData(data)
